@@ -149,6 +149,54 @@ def _sub_size(rec, mask):
     return aa.Array2D(values=np.array(sub, dtype=int), mask=mask)
 
 
+# ---------------------------------------------------------------------------------------------
+# Shared over-sampling objects (the history part of the check).  One OverSamplingUniform per sub size / sub-size map and
+# one OverSamplingIterate per (schedule, accuracies) is kept by the driver and handed to several grids in a row: grids
+# with the same mask layout but different scales and origin (a decoy before or after the real one) and the grids of
+# consecutive instances.  Every use is recorded and judged on its own geometry: what an over-sampling object returns
+# for a grid must not depend on which grids it served before.  The pool is reset at the start of every replay group,
+# so a group (the unit stored in a replay file) reproduces its own history.
+# ---------------------------------------------------------------------------------------------
+_POOL = {}
+
+
+def _pool_reset():
+    _POOL.clear()
+
+
+def _pooled(key, make):
+    """Returns (shared object, number of earlier uses of it in this group)."""
+    ent = _POOL.get(key)
+    if ent is None:
+        ent = _POOL[key] = [make(), 0]
+    ent[1] += 1
+    return ent[0], ent[1] - 1
+
+
+def _shared_uniform(rec, mask):
+    import autoarray as aa
+
+    sub = rec["sub"]
+    if rec.get("subrep") == "int" and len(set(sub)) == 1:
+        key = ("uniform", int(sub[0]))
+    else:
+        key = ("uniform-map", rec["h"], rec["w"], tuple(rec["u"]), tuple(sub))
+    return _pooled(key, lambda: aa.OverSamplingUniform(sub_size=_sub_size(rec, mask)))
+
+
+def _shared_iterate(rec, fa, ra, sched):
+    import autoarray as aa
+
+    key = ("iterate", tuple(sched), tuple(rec["fa"]), rec["ra"])
+    return _pooled(key, lambda: aa.OverSamplingIterate(fractional_accuracy=fa, relative_accuracy=ra, sub_steps=sched))
+
+
+def _decoy(rec, subs):
+    """Same mask layout and sub sizes, different scales AND origin (still on the lattice)."""
+    L = _lcm(subs)
+    return dict(rec, sy=rec["sy"] + 4 * L, sx=rec["sx"] * 3, oy=rec["oy"] + 6, ox=rec["ox"] - 10, decoy=True)
+
+
 def _check_lattice(rec, subs):
     L = _lcm(subs)
     if rec["sy"] <= 0 or rec["sx"] <= 0 or rec["sy"] % (4 * L) or rec["sx"] % (4 * L):
@@ -318,6 +366,8 @@ def _exc(e):
 # ---------------------------------------------------------------------------------------------
 FUNC_VIAS = ("sampler", "sampler_noobj", "decorator", "decorator_to_array", "decorator_grid_ctor",
              "decorator_oversampled_grid", "decorator_dataset_grid")
+# entry points that take an OverSamplingUniform object: these get the driver's shared instance, and a decoy grid
+SHARED_VIAS = ("decorator", "decorator_to_array", "decorator_grid_ctor", "decorator_dataset_grid")
 
 
 def rec_partition(rec):
@@ -325,10 +375,17 @@ def rec_partition(rec):
 
     _check_lattice(rec, rec["sub"])
     tau = TAUS[rec["ti"]]
-    out = dict(rec, p="C09", api="partition", via="sampler", grid=[], off=0, sfs=[], areas=[], total=-1, exc="")
+    out = dict(rec, p="C09", api="partition", via=rec.get("via", "sampler"), grid=[], off=0, sfs=[], areas=[], total=-1, exc="", hist=0)
     try:
         mask = _mask(rec)
-        os_ = aa.OverSamplerUniform(mask=mask, sub_size=_sub_size(rec, mask))
+        if out["via"] == "over_sampling_shared":
+            ov, out["hist"] = _shared_uniform(rec, mask)
+            os_ = ov.over_sampler_from(mask=mask)
+        elif out["via"] == "grid_over_sampler_shared":
+            ov, out["hist"] = _shared_uniform(rec, mask)
+            os_ = aa.Grid2D.from_mask(mask=mask, over_sampling=ov).over_sampler
+        else:
+            os_ = aa.OverSamplerUniform(mask=mask, sub_size=_sub_size(rec, mask))
         g, off1 = _alpha(np.array(os_.over_sampled_grid).reshape(-1, 2), tau)
         ar, off2 = _alpha(np.array(os_.sub_pixel_areas), tau * tau)
         out.update(grid=g.tolist(), off=off1 + off2, sfs=[int(x) for x in np.array(os_.slim_for_sub_slim).ravel()],
@@ -343,7 +400,7 @@ def rec_partition(rec):
 def rec_bin(rec):
     import autoarray as aa
 
-    out = dict(rec, p="C09", api="bin", num=[], off=0, exc="")
+    out = dict(rec, p="C09", api="bin", num=[], off=0, exc="", hist=0)
     try:
         mask = _mask(rec)
         os_ = aa.OverSamplerUniform(mask=mask, sub_size=_sub_size(rec, mask))
@@ -400,12 +457,19 @@ def rec_func(rec):
     import autoarray as aa
 
     _check_lattice(rec, rec["sub"])
-    out = dict(rec, p="C09", api="func", num=[], off=0, bad=0, exc="")
+    out = dict(rec, p="C09", api="func", num=[], off=0, bad=0, exc="", hist=0)
     try:
         mask = _mask(rec)
         probe = Probe(rec, _lattice_value(rec["fn"]))
+
+        def over_sampling():
+            if not rec.get("share"):
+                return aa.OverSamplingUniform(sub_size=_sub_size(rec, mask))
+            ov, out["hist"] = _shared_uniform(rec, mask)
+            return ov
+
         res = _call_func(rec, mask, probe,
-                         over_sampling=lambda: aa.OverSamplingUniform(sub_size=_sub_size(rec, mask)),
+                         over_sampling=over_sampling,
                          sampler=lambda: aa.OverSamplerUniform(mask=mask, sub_size=_sub_size(rec, mask)))
         b = np.array(res, dtype=float).ravel()
         sub2 = np.array(rec["sub"], dtype=float) ** 2
@@ -427,7 +491,10 @@ def records_a(inst, seed, n_func=2):
     rng = np.random.default_rng([seed, h, w, len(u), sum(sub), inst["sy"], inst["sx"], abs(inst["oy"]), sum(u), 9])
     base = dict(h=h, w=w, u=list(u), sub=list(sub), sy=inst["sy"], sx=inst["sx"], oy=inst["oy"], ox=inst["ox"],
                 ti=int(rng.integers(0, len(TAUS))), subrep=("int", "array")[int(rng.integers(0, 2))])
-    recs = [rec_partition(base)]
+    pvia = ("sampler", "over_sampling_shared", "grid_over_sampler_shared")[int(rng.integers(0, 3))]
+    recs = []
+    if pvia == "sampler":
+        recs.append(rec_partition(base))
     total = sum(s * s for s in sub)
     vals = rng.integers(-9, 10, size=total)
     if rng.integers(0, 4) == 0:
@@ -435,17 +502,33 @@ def records_a(inst, seed, n_func=2):
     recs.append(rec_bin(dict(base, vals=[int(x) for x in vals], via=("ndarray", "irregular")[int(rng.integers(0, 2))])))
     vias = list(rng.permutation(len(FUNC_VIAS))[:n_func])
     for v in vias:
-        recs.append(rec_func(dict(base, fn=_random_fn(rng), via=FUNC_VIAS[int(v)])))
+        via = FUNC_VIAS[int(v)]
+        real = dict(base, fn=_random_fn(rng), via=via)
+        if via not in SHARED_VIAS:
+            recs.append(rec_func(real))
+            continue
+        # the shared OverSamplingUniform serves a decoy grid (same layout, other scales and origin) before the real
+        # grid -- or after it; both uses are judged
+        real["share"] = True
+        dec = dict(_decoy(base, sub), fn=_random_fn(rng), via=via, share=True)
+        for r in ([dec, real] if rng.integers(0, 3) > 0 else [real, dec]):
+            recs.append(rec_func(r))
+    if pvia != "sampler":
+        recs.append(rec_partition(dict(base, via=pvia)))
     if all(s == 1 for s in sub):
         recs.append(rec_func(dict(base, fn=_random_fn(rng), via="decorator_default")))
     return recs
 
 
 def _many_a(args):
-    insts, seed, n_func = args
+    """One replay group: consecutive instances share the driver's over-sampling objects."""
+    gid, insts, seed, n_func = args
+    _pool_reset()
     out = []
     for inst in insts:
         out.extend(records_a(inst, seed, n_func))
+    for k, r in enumerate(out):
+        r["grp"], r["gk"] = gid, k
     return out
 
 
@@ -491,7 +574,10 @@ def _iterate_call(rec, probe):
     if rec["via"] == "sampler":
         it = aa.OverSamplerIterate(mask=mask, fractional_accuracy=fa, relative_accuracy=ra, sub_steps=sched)
         return it.array_via_func_from(func=P["plain"], obj=P["VOverSampleProfile"](probe))
-    ov = aa.OverSamplingIterate(fractional_accuracy=fa, relative_accuracy=ra, sub_steps=sched)
+    if rec.get("share"):
+        ov, rec["hist"] = _shared_iterate(rec, fa, ra, sched)
+    else:
+        ov = aa.OverSamplingIterate(fractional_accuracy=fa, relative_accuracy=ra, sub_steps=sched)
     cls = P["VProfile"] if rec["via"] == "decorator_to_array" else P["VOverSampleProfile"]
     return cls(probe).values_from(aa.Grid2D.from_mask(mask=mask, over_sampling=ov))
 
@@ -502,10 +588,12 @@ ITER_VIAS = ("sampler", "decorator", "decorator_to_array")
 def rec_iterate(rec):
     """Table function: rec['v'][p] = [value at sub size 1, value at schedule entry 1, ...]."""
     _check_lattice(rec, rec["sched"])
+    rec = dict(rec, hist=0)
     out = dict(rec, p="C09", api="iterate", result=[], evals=[], off=0, bad=0, exc="")
     try:
         probe = Probe(rec, _table_value(rec["v"], rec["sched"]))
         res = np.array(_iterate_call(rec, probe), dtype=float).ravel()
+        out["hist"] = rec["hist"]
         num, off = _alpha(res, 1.0, tol=1e-9)
         out.update(result=num.tolist(), off=off, bad=probe.bad, evals=probe.evals())
     except core.MachineryError:
@@ -518,10 +606,12 @@ def rec_iterate(rec):
 def rec_iterate_fn(rec):
     """Function of the lattice point; the trace spec computes the table itself.  Values scaled by den = max sub^2."""
     _check_lattice(rec, rec["sched"])
+    rec = dict(rec, hist=0)
     out = dict(rec, p="C09", api="iterate_fn", result=[], evals=[], off=0, bad=0, exc="")
     try:
         probe = Probe(rec, _lattice_value(rec["fn"]))
         res = np.array(_iterate_call(rec, probe), dtype=float).ravel()
+        out["hist"] = rec["hist"]
         num, off = _alpha(res * rec["den"], 1.0, tol=1e-6)
         out.update(result=num.tolist(), off=off, bad=probe.bad, evals=probe.evals())
     except core.MachineryError:
@@ -618,8 +708,24 @@ def random_iterate_fn_records(rng, n, max_side):
     return out
 
 
-def _many_b(recs):
-    return [rec_iterate(r) if "v" in r else rec_iterate_fn(r) for r in recs]
+def _many_b(args):
+    """One replay group of Part B.  Decorator entry points use the driver's shared OverSamplingIterate, on a decoy grid
+    (same layout, other scales and origin) before or after the real grid; both uses are judged."""
+    gid, recs = args
+    _pool_reset()
+    out = []
+    for n, r in enumerate(recs):
+        one = rec_iterate if "v" in r else rec_iterate_fn
+        if r["via"] == "sampler":
+            out.append(one(r))
+            continue
+        real = dict(r, share=True)
+        dec = dict(_decoy(r, r["sched"]), share=True)
+        for x in ([dec, real] if (n + gid) % 3 else [real, dec]):
+            out.append(one(x))
+    for k, r in enumerate(out):
+        r["grp"], r["gk"] = gid, k
+    return out
 
 
 # ---------------------------------------------------------------------------------------------
@@ -636,17 +742,20 @@ def _describe(rec):
         s += f" table={rec['v']} got={rec.get('result')}"
     if "fn" in rec:
         s += f" fn={rec['fn']}"
+    if rec.get("hist"):
+        s += f" [use #{rec['hist'] + 1} of a shared over-sampling object{', decoy grid' if rec.get('decoy') else ''}]"
     if rec.get("exc"):
         s += f" raised {rec['exc']}"
     return s
 
 
-def validate(ctx, records, tag, chunk=1500):
+def validate(ctx, records, tag, chunk=1500, context=None):
+    """context(rec) -> what a replay file needs to reproduce the history of the record (its replay group)."""
     import concurrent.futures as cf
 
     for n, r in enumerate(records):
         r["id"] = n
-    slim = [{k: v for k, v in r.items() if k not in ("m_actions",)} for r in records]
+    slim = [{k: v for k, v in r.items() if k not in ("m_actions", "grp", "gk")} for r in records]
     chunks = [slim[k : k + chunk] for k in range(0, len(slim), chunk)]
     rejects = []
 
@@ -660,9 +769,10 @@ def validate(ctx, records, tag, chunk=1500):
             rejects.extend(rej)
     for rj in rejects:
         rec = records[rj["id"]]
-        ctx.violation(rj["sig"], f"{_describe(rec)}: failed {rj['clauses']}",
-                      {"record": rec, "failed_clauses": rj["clauses"], "spec_wanted": rj.get("want")},
-                      cls=",".join(rj["clauses"]))
+        rp = {"record": rec, "failed_clauses": rj["clauses"], "spec_wanted": rj.get("want")}
+        if context is not None:
+            rp["group"] = context(rec)
+        ctx.violation(rj["sig"], f"{_describe(rec)}: failed {rj['clauses']}", rp, cls=",".join(rj["clauses"]))
     return rejects
 
 
@@ -763,7 +873,7 @@ def run(ctx):
     rnd = random_instances_a(np.random.default_rng([ctx.seed, 1]), ctx.bounds["A_random_instances"], ctx.bounds["A_random_max_side"])
     allinst = insts + rnd
     n_func = 2
-    groups = [(allinst[k : k + 40], ctx.seed, n_func) for k in range(0, len(allinst), 40)]
+    groups = [(g, allinst[k : k + 40], ctx.seed, n_func) for g, k in enumerate(range(0, len(allinst), 40))]
     a_out = []
     for part in core.pmap(_many_a, groups):
         a_out.extend(part)
@@ -784,7 +894,7 @@ def run(ctx):
     rng_b = np.random.default_rng([ctx.seed, 2])
     b_recs += random_iterate_records(rng_b, ctx.bounds["B_random_tables"], 5)
     b_recs += random_iterate_fn_records(rng_b, ctx.bounds["B_random_functions"], 4)
-    b_groups = [b_recs[k : k + 10] for k in range(0, len(b_recs), 10)]
+    b_groups = [(g, b_recs[k : k + 10]) for g, k in enumerate(range(0, len(b_recs), 10))]
     b_out = []
     for part in core.pmap(_many_b, b_groups):
         b_out.extend(part)
@@ -796,7 +906,13 @@ def run(ctx):
         if s is not None:
             s = {k: (v if not isinstance(v, list) or len(v) <= 24 else v[:24] + ["..."]) for k, v in s.items()}
             ctx.sample(s)
-    rej = validate(ctx, recs, "C09")
+    def context(rec):
+        if rec["api"] in ("iterate", "iterate_fn"):
+            return {"part": "B", "recs": b_groups[rec["grp"]][1], "gid": rec["grp"], "gk": rec["gk"]}
+        g = groups[rec["grp"]]
+        return {"part": "A", "insts": g[1], "seed": g[2], "n_func": g[3], "gid": rec["grp"], "gk": rec["gk"]}
+
+    rej = validate(ctx, recs, "C09", context=context)
     th.join()
     if bg_err:
         raise bg_err[0]
@@ -820,12 +936,23 @@ def run(ctx):
 
 
 def replay(ctx, rp):
-    rec = dict(rp["record"])
-    for k in ("id", "p", "exc"):
-        rec.pop(k, None)
-    api = rec.pop("api")
-    fn = {"partition": rec_partition, "bin": rec_bin, "func": rec_func, "iterate": rec_iterate, "iterate_fn": rec_iterate_fn}[api]
-    new = fn(rec)
+    """Re-runs the replay group of the rejected record (the group carries the history of the shared over-sampling
+    objects) through the real code and validates the record again."""
+    grp = rp.get("group")
+    if grp is not None:
+        if grp["part"] == "A":
+            out = _many_a((grp["gid"], grp["insts"], grp["seed"], grp["n_func"]))
+        else:
+            out = _many_b((grp["gid"], grp["recs"]))
+        new = out[grp["gk"]]
+    else:
+        rec = dict(rp["record"])
+        for k in ("id", "p", "exc", "hist", "grp", "gk"):
+            rec.pop(k, None)
+        api = rec.pop("api")
+        fn = {"partition": rec_partition, "bin": rec_bin, "func": rec_func, "iterate": rec_iterate, "iterate_fn": rec_iterate_fn}[api]
+        _pool_reset()
+        new = fn(rec)
     rej = validate(ctx, [new], "C09-replay")
     print("replayed 1 record:", _describe(new))
     print("rejected:", [(r["clauses"], r["sig"]) for r in rej])
